@@ -1836,7 +1836,7 @@ MANIFEST_ENTRY = {
              'loop) and hermite_der_seq_correct / jacobi_der_seq_correct prove that EVERY row is the derivative of the value routine\'s '
              'polynomial (all orders, all admissible shapes, by induction on the loop state); cheby_legendre_der_correct: for the shape the '
              'SOURCE hands to jacobi_der (read from cheby.py / legendre.py, gen_cheby_shapes) and any normalising constant c, c * jacobi_der '
-             'is the derivative of c * P_n. TRANSLATED for these (gen_hermite_der_seq, gen_jacobi_der_seq, gen_delegations): explicit rows, '
+             'is the derivative of c * P_n (cheby_legendre_der_seq_correct: same for the rows of the jacobi_der_seq sweep). TRANSLATED for these (gen_hermite_der_seq, gen_jacobi_der_seq, gen_delegations): explicit rows, '
              'locals on entry to the loop, one iteration and the emitted row (symbolic execution of the loop body: statement order does not '
              'matter), loop start, recurrence_abc indices and shapes; shape / normaliser shape / numerator of cheby1..4(_der)(_seq) and '
              'legendre(_der)(_seq) (the derivative routine must use those of ITS value routine); order shift, shape, sign and zero rows of '
